@@ -910,7 +910,7 @@ SPECS = {
             "the reference itself refuses, at least one answer row."
         ),
         "state_measure": "distinct (worker completion order, set of terminated workers) tuples over all parallel calls",
-        "must_reach": ["terminate_path", "mp_manager", "slow"],
+        "must_reach": ["terminate_path", "mp_workers", "slow"],
         "components": _COMPONENTS,
         "assumptions": [
             "workers of one parallel call share nothing but the result dict, so running them eagerly one after the other and replaying their time-stamped effects is equivalent to any real interleaving with the same time stamps",
